@@ -2,7 +2,7 @@
 sqlglot(duckdb) AST with comments dropped, parentheses nodes dropped (tree shape already encodes
 precedence), identifier quoting normalised, and the projection list of every CTE sorted by alias
 (CTE column order cannot affect the result; C15 looks at order separately), AND/OR chains
-re-associated to the left (associativity holds in 3VL). Nothing else."""
+re-associated to the left (associativity holds in 3VL), COUNT(*) written COUNT(1), `x AS x` written `x`. Nothing else."""
 from __future__ import annotations
 
 import re
@@ -14,11 +14,22 @@ from sqlglot import exp
 def _strip(e):
     def tr(node):
         if isinstance(node, exp.Paren):
-            return node.this
+            while isinstance(node, exp.Paren):      # nested parentheses too
+                node = node.this
+            return tr(node)
         if isinstance(node, exp.Identifier):
             return exp.Identifier(this=node.this, quoted=False)
+        if isinstance(node, exp.Count) and isinstance(node.this, exp.Star):
+            return exp.Count(this=exp.Literal.number(1))       # COUNT(*) = COUNT(1)
         return node
     e = e.transform(tr)
+
+    def unalias(node):
+        # `x AS x` is `x`
+        if isinstance(node, exp.Alias) and isinstance(node.this, exp.Column) and not node.this.table and node.this.name == node.alias:
+            return node.this
+        return node
+    e = e.transform(unalias)
     for n in e.walk():
         n.comments = None
 
